@@ -68,3 +68,70 @@ def r2(ctx, R):
                 R.ok(f'{ci.name}.{name} :: every returned value is fresh', w, found=f'{len(P.returns)} return(s)')
             for s, d in bad:
                 R.bad(f'{ci.name}.{name} :: returns `{ast.unparse(s.value)[:40]}`', w, 'a value allocated in this call', f'may be {sorted(d)}')
+
+
+def _add_terms(n):
+    if isinstance(n, ast.BinOp) and isinstance(n.op, ast.Add):
+        return _add_terms(n.left) + _add_terms(n.right)
+    return [n]
+
+
+def _per_index_form(t):
+    """(k, text with every `X[k]` replaced by `X[#]`) if the term mentions exactly one constant integer subscript value k"""
+    import copy
+    ks = {s.slice.value for s in ast.walk(t) if isinstance(s, ast.Subscript) and isinstance(s.slice, ast.Constant) and isinstance(s.slice.value, int) and not isinstance(s.slice.value, bool)}
+    if len(ks) != 1:
+        return None
+    k = next(iter(ks))
+
+    class T(ast.NodeTransformer):
+        def visit_Subscript(self, s):
+            self.generic_visit(s)
+            if isinstance(s.slice, ast.Constant) and s.slice.value == k:
+                s.slice = ast.Name('#', ast.Load())
+            return s
+
+    return k, ast.unparse(T().visit(copy.deepcopy(t)))
+
+
+def dimension_sums(tree):
+    """maximal `+` chains of >= 3 terms that are written once per dimension index (each term mentions one distinct constant index)"""
+    inner = set()
+    out = []
+    for node in ast.walk(tree):
+        if isinstance(node, ast.BinOp) and isinstance(node.op, ast.Add) and id(node) not in inner:
+            for x in ast.walk(node):
+                if x is not node and isinstance(x, ast.BinOp) and isinstance(x.op, ast.Add):
+                    inner.add(id(x))
+            ts = _add_terms(node)
+            forms = [_per_index_form(t) for t in ts]
+            if len(ts) >= 3 and all(f is not None for f in forms) and len({k for k, _ in forms}) == len(ts):
+                out.append((node, forms))
+    return out
+
+
+_CONTROL_SUM = "rho = (2.0 - 2.0 * c(f[0] * dx)) / dx**2 + (2.0 - 2.0 * c(f[1] * dx)) + (2.0 - 2.0 * c(f[2] * dx)) / dx**2"
+
+
+@rule('C12', 'C12.R3', 'closed-form solutions and operators written once per dimension treat every dimension alike: in a sum of >= 3 per-index terms no single term deviates from the form all the others share', floor=2)
+def r3(ctx, R):
+    import collections
+    repo = ctx.repo
+    ctl = dimension_sums(ast.parse(_CONTROL_SUM))
+    hit = bool(ctl) and collections.Counter(f for _, f in ctl[0][1]).most_common()[-1][1] == 1 and len(set(f for _, f in ctl[0][1])) == 2
+    R.check(hit, 'positive control :: the embedded example (a decay rate whose middle term lacks / dx**2) is recognised as one deviating term', 'sa/rules/c12.py:_CONTROL_SUM', 'one deviating term among three', [f for _, f in ctl[0][1]] if ctl else 'no per-dimension sum found')
+    for m in repo.modules.values():
+        if 'problem_classes' not in m.relpath or not repo.is_library(m):
+            continue
+        for node, forms in dimension_sums(m.tree):
+            cnt = collections.Counter(f for _, f in forms)
+            w = f'{m.relpath}:{node.lineno}'
+            fn = next((f.name for f in ast.walk(m.tree) if isinstance(f, ast.FunctionDef) and f.lineno <= node.lineno <= f.end_lineno), '?')
+            c = f'{m.relpath.split("/")[-1]}:{fn} :: per-dimension sum `{cnt.most_common(1)[0][0][:60]}` ({len(forms)} terms)'
+            if len(cnt) == 1:
+                R.ok(c, w, found='all terms share one form')
+            elif len(cnt) == 2 and cnt.most_common()[-1][1] == 1 and len(forms) >= 3:
+                dev = cnt.most_common()[-1][0]
+                k = next(k for k, f in forms if f == dev)
+                R.bad(c, w, f'every term of the form {cnt.most_common(1)[0][0]}', f'the term for index {k} is {dev}')
+            # sums whose terms all differ are written per dimension on purpose (different offsets / amplitudes): not judged
